@@ -78,7 +78,7 @@ def run_property(prop, tier):
                 say("KNOWN-FINDING: property=%s %s" % (prop, known[key].get("what", key)))
                 continue
             os.makedirs(os.path.join(REPLAY_DIR, prop), exist_ok=True)
-            body = dict(property=prop, engine="symx", harness=c["harness"], inputs=v["inputs"], what=v["what"], key=key)
+            body = dict(property=prop, engine="symx", harness=c["harness"], inputs=v["inputs"], what=v["what"], key=key, seed=seed(), tier=tier)
             path = os.path.join(REPLAY_DIR, prop, "symx_%s.json" % hashlib.sha1(json.dumps(body, sort_keys=True).encode()).hexdigest()[:10])
             json.dump(body, open(path, "w"), indent=1)
             violations.append(dict(harness=c["harness"], what=v["what"], inputs=v["inputs"], key=key, replay=path))
@@ -121,7 +121,8 @@ def run_property(prop, tier):
 
 def replay_file(path):
     build()
-    rc, out, _, _ = run([BIN, "replay", path], timeout=1800)
+    r0 = json.load(open(path))
+    rc, out, _, _ = run([BIN, "replay", path, "--seed", str(r0.get("seed", seed()))], timeout=1800)
     say(out.strip())
     r = json.load(open(path))
     if rc == 1:
